@@ -545,6 +545,12 @@ func filterTree(c *Ctx) model.Tree {
 			dirs = append(dirs, p)
 		} else {
 			e := newFile(c.Rand, genOpts{})
+			switch c.Rand.Intn(9) {
+			case 0: // not only regular files are selected or left out
+				e = model.Entry{Type: "symlink", Perm: 0777, Link: []string{"a", "../b", "/c", "nowhere"}[c.Rand.Intn(4)], Mtime: uniqueMtime()}
+			case 1:
+				e = model.Entry{Type: "fifo", Perm: 0644, Mtime: uniqueMtime()}
+			}
 			e.Path = p
 			t = append(t, e)
 		}
